@@ -294,7 +294,8 @@ fn chain_logged(issuer_params: CertificateParams, ca_der: &[u8], origin: &str, c
 	out.event(
 		"Chain",
 		case,
-		json!({"origin": origin, "ca": facts, "stage": "validate", "akiRequested": true, "timeInside": true, "leafIsCa": false, "subjAlg": leaf_key.info.alg, "caAlg": ca_key.info.alg}),
+		json!({"origin": origin, "ca": facts, "stage": "validate", "akiRequested": true, "timeInside": true, "leafIsCa": false, "subjAlg": leaf_key.info.alg, "caAlg": ca_key.info.alg,
+			"caHasNameConstraints": ip_view["nc"]["k"] == "some"}),
 		"Ok",
 		"",
 		json!({"leafIssuerRaw": lv["issuerRaw"], "leafSubjectRaw": lv["subjectRaw"], "leafAki": aki, "openssl": o, "webpki": wv}),
